@@ -2211,13 +2211,18 @@ fn gen_case(rng: &mut Rng, tier: Tier, index: u64) -> Case {
     let n_ns = rng.range(2, 3) as u8;
     // attenuation: documented default (1, 2, 10) or a small horizon so that "maximum
     // distance" and "one hop beyond" are reachable with a handful of groups
-    let (admin_limit, write_limit, horizon) = match rng.below(6) {
+    // ... or a maximum distance below the level limits ("direct grants only" with the
+    // default level limits left alone): the distance is what counts
+    let (admin_limit, write_limit, horizon) = match rng.below(9) {
         0 => (1, 2, 10),
         1 => (1, 1, 1),
         2 => (1, 2, 2),
         3 => (2, 2, 3),
         4 => (1, 2, 3),
-        _ => (1, 3, 3),
+        5 => (1, 3, 3),
+        6 => (1, 2, 1),
+        7 => (2, 3, 1),
+        _ => (1, 3, 2),
     };
     let n_principals = 1 + n_ids + n_groups;
     // near-duplicate identities, in a third of the cases: one or two identity slots carry the
